@@ -45,6 +45,43 @@ def _canon(q: str) -> str:
     return q.replace("django.db.models.lookups.", "django.db.models.lookups.")
 
 
+def check_notequal_lookup(ctx, env, rule: str = "R1.notequal-lookup"):
+    """The custom `ne` lookup, evaluated: SQL text `lhs <> rhs`, parameters = lhs parameters then rhs parameters (nothing spliced
+    into the text, nothing dropped). Shared with C08 (a value rendered into the SQL text is no longer a bound parameter)."""
+    repo = env.repo
+    # NotEqual lookup renders <>
+    ne = repo.classes.get("odata_query.django.django_q_ext.NotEqual")
+    if ne is not None and "as_sql" in ne.methods:
+        afn = ne.methods["as_sql"]
+        interp = env.interp()
+
+        def setup_ne(it):
+            return ne.module, afn, [ObjV(ne.qual, {}, "self"), Sym("compiler"), Sym("connection")], {}, ne.qual
+
+        for p in interp.explore(setup_ne):
+            t = T.norm(p.value) if p.outcome == "return" else None
+            ok = False
+            why = f"returns {T.show(t) if t else p.outcome}"
+            if t and t[0] == "tuple" and len(t) == 3 and t[1][0] == "str":
+                parts = t[1][1]
+                # "<lhs> <> <rhs>" with lhs/rhs being the first elements of process_lhs / process_rhs
+                def side(x):
+                    r = repr(x)
+                    return "lhs" if "process_lhs" in r else ("rhs" if "process_rhs" in r else "?")
+                dyn = [q for q in parts if q[0] == "dyn"]
+                lits = "".join(q[1] for q in parts if q[0] == "lit").strip()
+                text_ok = len(dyn) == 2 and side(dyn[0][1]) == "lhs" and side(dyn[1][1]) == "rhs" and lits in ("<>", "!=")
+                params = t[2]
+                order = [side(x) for x, _ in T.walk(params) if isinstance(x, tuple) and x and x[0] == "sym" and x[1] == "elem"]
+                params_ok = order[:2] == ["lhs", "rhs"] and len(order) == 2
+                ok = text_ok and params_ok
+                why = (f"SQL text `{T.show(t[1], 80)}` with parameters ordered {order}: the text must be `lhs <> rhs` and the parameters "
+                       "lhs-parameters followed by rhs-parameters (placeholders bind positionally)")
+            ctx.check(ok, rule, "NotEqual.as_sql", f"the custom `ne` lookup: {why}", ne.module.loc(afn), "id add 1 ne 3")
+    else:
+        ctx.fail(rule, "NotEqual.as_sql", "custom NotEqual lookup not found")
+
+
 def run(ctx: Ctx, env):
     repo = env.repo
     if DJ not in repo.classes:
@@ -77,40 +114,11 @@ def run(ctx: Ctx, env):
                       f"OData `{O.OPERATOR_KEYWORD[cls]}` is translated with {T.show(v) if v else p.outcome}; expected {sorted(T.short(a) for a in allowed)}",
                       p.entry.get("where", ""), witness.example(O.OPERATOR_NODE[cls], cls))
     ctx.floor("operator handlers", n_ops, 13)
-    # NotEqual lookup renders <>
-    ne = repo.classes.get("odata_query.django.django_q_ext.NotEqual")
-    if ne is not None and "as_sql" in ne.methods:
-        afn = ne.methods["as_sql"]
-        interp = env.interp()
-
-        def setup_ne(it):
-            return ne.module, afn, [ObjV(ne.qual, {}, "self"), Sym("compiler"), Sym("connection")], {}, ne.qual
-
-        for p in interp.explore(setup_ne):
-            t = T.norm(p.value) if p.outcome == "return" else None
-            ok = False
-            why = f"returns {T.show(t) if t else p.outcome}"
-            if t and t[0] == "tuple" and len(t) == 3 and t[1][0] == "str":
-                parts = t[1][1]
-                # "<lhs> <> <rhs>" with lhs/rhs being the first elements of process_lhs / process_rhs
-                def side(x):
-                    r = repr(x)
-                    return "lhs" if "process_lhs" in r else ("rhs" if "process_rhs" in r else "?")
-                dyn = [q for q in parts if q[0] == "dyn"]
-                lits = "".join(q[1] for q in parts if q[0] == "lit").strip()
-                text_ok = len(dyn) == 2 and side(dyn[0][1]) == "lhs" and side(dyn[1][1]) == "rhs" and lits in ("<>", "!=")
-                params = t[2]
-                order = [side(x) for x, _ in T.walk(params) if isinstance(x, tuple) and x and x[0] == "sym" and x[1] == "elem"]
-                params_ok = order[:2] == ["lhs", "rhs"] and len(order) == 2
-                ok = text_ok and params_ok
-                why = (f"SQL text `{T.show(t[1], 80)}` with parameters ordered {order}: the text must be `lhs <> rhs` and the parameters "
-                       "lhs-parameters followed by rhs-parameters (placeholders bind positionally)")
-            ctx.check(ok, "R1.notequal-lookup", "NotEqual.as_sql", f"the custom `ne` lookup: {why}", ne.module.loc(afn), "id add 1 ne 3")
-    else:
-        ctx.fail("R1.notequal-lookup", "NotEqual.as_sql", "custom NotEqual lookup not found")
+    check_notequal_lookup(ctx, env)
     # operand order in the composite handlers
-    for kind, d, fields in (("Compare", "Gt", ("comparator", "left", "right")), ("BinOp", "Sub", ("op", "left", "right")),
-                            ("BoolOp", "And", ("op", "left", "right"))):
+    for kind, d, fields in [("Compare", c, ("comparator", "left", "right")) for c in ("Gt", "GtE", "Lt", "LtE")] + \
+            [("BinOp", o, ("op", "left", "right")) for o in ("Sub", "Add", "Mult", "Div", "Mod")] + \
+            [("BoolOp", o, ("op", "left", "right")) for o in ("And", "Or")]:
         for p in H.eval_visit(DJ, kind, d) or []:
             if p.outcome != "return":
                 continue
@@ -121,6 +129,14 @@ def run(ctx: Ctx, env):
                     not _mentions_visit(args[0], "node.right")
                 ctx.check(ok, "R1.operand-order", f"visit_{kind}", f"{kind} is built as {T.show(t)}: operands must be (left, right) in source order",
                           p.entry.get("where", ""), witness.example(kind, d))
+                if ok and kind == "Compare":
+                    # a comparison compares the two translations themselves: anything wrapped around one of them (a CASE that maps
+                    # unknown to false, a cast, a default) changes which rows compare equal, most visibly for NULL
+                    plain = T.is_visit(args[0], "node.left") and T.is_visit(args[1], "node.right")
+                    ctx.check(plain, "R1.comparison-operands-unwrapped", f"visit_Compare|{d}",
+                              f"the comparison is built as `{T.show(t, 200)}`: an operand is not the plain translation of the node's operand, so "
+                              "its NULL/unknown behaviour is no longer that of the operand", p.entry.get("where", ""),
+                              "false eq contains(s, 'b')  on a row where s is NULL")
             elif T.is_call_of(t, "IsNull"):
                 pass
             else:
